@@ -834,8 +834,8 @@ def check_rip_model(ctx, rep, f, rule='R-MODEL.M4'):
     from ..miniexec import Interp, Obj, Raised
     from ..abseval import Unsupported as U2
 
-    classes = {'Zero': lambda: ('Zero',), 'One': lambda: ('One',), 'Symbol': lambda a: ('Symbol', a), 'Iteration': lambda x: ('Iteration', x),
-               'Sum': lambda x, y: ('Sum', x, y), 'Concat': lambda x, y: ('Concat', x, y)}
+    classes = {'Zero': lambda: ('Zero',), 'One': lambda: ('One',), 'Symbol': lambda symbol: ('Symbol', symbol), 'Iteration': lambda operand: ('Iteration', operand),
+               'Sum': lambda left, right: ('Sum', left, right), 'Concat': lambda left, right: ('Concat', left, right)}
 
     def reference(edges, inner):
         d = dict(edges)
@@ -900,8 +900,8 @@ def check_gnfa_edges_model(ctx, rep, f, rule='R-MODEL.M4'):
     from .. import shapes
     from ..miniexec import Interp, Obj, Raised
     from ..abseval import Unsupported as U2
-    classes = {'Zero': lambda: ('Zero',), 'One': lambda: ('One',), 'Symbol': lambda a: ('Symbol', a), 'Iteration': lambda x: ('Iteration', x),
-               'Sum': lambda x, y: ('Sum', x, y), 'Concat': lambda x, y: ('Concat', x, y),
+    classes = {'Zero': lambda: ('Zero',), 'One': lambda: ('One',), 'Symbol': lambda symbol: ('Symbol', symbol), 'Iteration': lambda operand: ('Iteration', operand),
+               'Sum': lambda left, right: ('Sum', left, right), 'Concat': lambda left, right: ('Concat', left, right),
                'GNFA': lambda Q, Sigma, delta, q_start, q_accept, *rest, **kw: Obj('GNFA', Q=Q, Sigma=Sigma, delta=delta, q_start=q_start, q_accept=q_accept)}
     # q: its parallel transitions to p (a, c) and to itself (b, d) are interleaved in the order of the symbols
     trans = {('p', 'a'): 'q', ('p', 'b'): 'q', ('p', 'c'): 'q', ('p', 'd'): 'p', ('q', 'a'): 'p', ('q', 'b'): 'q', ('q', 'c'): 'p', ('q', 'd'): 'q',
